@@ -151,7 +151,7 @@ func checkIO(prop, tier string, seed uint64, spec propSpec, start time.Time) int
 			if tier == "thorough" {
 				args = append(args, "-thorough")
 			}
-			r := runWorker(b.Bins[p.cfg.Name], args, nil, time.Duration(dur)*time.Second+15*time.Minute)
+			r := runWorker(b.Bins[p.cfg.Name], args, nil, 2*time.Duration(dur)*time.Second+20*time.Minute)
 			r.cfg, r.worker = p.cfg.Name, p.worker
 			results[i] = r
 		}(i, p)
